@@ -67,6 +67,21 @@ Theorem C15_trigger_no_overlap : forall depsort s e, is_trigger e -> wk s <> WId
 Proof. exact trigger_skips. Qed.
 Print Assumptions C15_trigger_no_overlap.
 
+(* The periodic trigger is a ticker: after ANY history (no matter how recently
+   Broadcast / MarkAsConfirmed / block events were served) the tick is taken
+   by a live handler that is in its select, and starts a rebroadcast of the
+   pending set unless one is running.  Its guard mentions no other event. *)
+Theorem C15_tick_always_enabled : forall depsort evs,
+  let s := run depsort evs in
+  stopped s = false -> hbusy s = None ->
+  snd (step depsort s ETick) = OTrig /\
+  (wk s = WIdle ->
+   wk (fst (step depsort s ETick)) =
+     WRun (match pending s with [] => [] | z :: l0 => depsort (nsort s) (z :: l0) end) /\
+   snap (fst (step depsort s ETick)) = pending s).
+Proof. exact tick_always_enabled. Qed.
+Print Assumptions C15_tick_always_enabled.
+
 (* The monitor evaluated on implementation traces accepts every trace of the
    model: return values (nil exactly for accepted / in-mempool, the mapped
    error otherwise, ErrBroadcasterStopped after Stop), one worker call in
